@@ -359,7 +359,11 @@ func processGoCallableArg(arg reflect.Value, param goCallableParam) (reflect.Val
 		return arg.Convert(paramType), true
 	case argType.Implements(jtypes.TypeConvertible):
 		if arg.CanInterface() {
-			return arg.Interface().(jtypes.Convertible).ConvertTo(paramType)
+			// A nil interface value of a Convertible interface type
+			// passes the Implements test but holds nothing to convert.
+			if c, ok := arg.Interface().(jtypes.Convertible); ok {
+				return c.ConvertTo(paramType)
+			}
 		}
 	}
 
